@@ -18,6 +18,10 @@ class LoopSpec:
     keep: list = dataclasses.field(default_factory=list)      # names NOT to havoc although assigned
     havoc: list = dataclasses.field(default_factory=list)     # extra names to havoc
     snapshot: dict = dataclasses.field(default_factory=dict)  # ghost local -> spec expr, assigned at every loop head
+    # ghost witness functions (Int -> Int) for existential facts: name -> (param, init expr, update expr); the invariant
+    # may call name(i); at the loop head it is an arbitrary function, after the body it is `update` (which may call
+    # old_<name>(param), the function at the head): the contract supplies the witness instead of the solver
+    witness: dict = dataclasses.field(default_factory=dict)
 
 
 @dataclasses.dataclass
@@ -124,6 +128,8 @@ class ClassSpec:
 
 def class_spec(**kw):
     cs = ClassSpec(**kw)
+    if cs.cls in CLASS_SPECS:
+        raise ValueError(f"duplicate class spec {cs.cls}")
     CLASS_SPECS[cs.cls] = cs
     return cs
 
